@@ -139,6 +139,13 @@ func forwardCheckPoint(ctx context.Context, nodeKey string) context.Context {
 	return context.WithValue(ctx, checkPointKey{}, (*checkpoint)(nil))
 }
 
+func clearCheckPoint(ctx context.Context) context.Context {
+	if getCheckPointFromCtx(ctx) == nil {
+		return ctx
+	}
+	return context.WithValue(ctx, checkPointKey{}, (*checkpoint)(nil))
+}
+
 func newCheckPointer(
 	inputPairs, outputPairs map[string]streamConvertPair,
 	store CheckPointStore,
